@@ -113,6 +113,26 @@ def run_case(case):
                         nt += 1
                 except Exception as e:
                     res.exception("geometry:exception", e, label)
+            if mode == "dense" and n == 384 and "shank" in recs and kind != "NP2.4":
+                # metadata without any site map (older acquisitions): the geometry falls back to the canonical dense layout OF THAT PROBE GENERATION,
+                # which for a dense 384-site selection is the same table
+                rec = recs["shank"]
+                f = d / f"g{j}_nomap.ap.meta"
+                f.write_text("".join(ln + "\n" for ln in rec.meta_text.splitlines() if "snsShankMap" not in ln and "snsGeomMap" not in ln))
+                label = f"{kind}/no site map/dense/n={n}"
+                try:
+                    md = spikeglx.read_meta_data(f)
+                    for sort in (True, False):
+                        g0, i0 = spikeglx.geometry_from_meta(md, return_index=True, sort=sort)
+                        res.count("default_layouts_checked")
+                        for k, kk in KEYS:
+                            exp = getattr(rec, kk)
+                            got = np.asarray(g0.get(k))
+                            res.check(got.shape == exp.shape and np.array_equal(got, exp), f"geometry:default-layout:{k}",
+                                      lambda: f"{label} sort={sort}: default geometry['{k}'] {got[:6]} expected the dense layout {exp[:6]}")
+                        res.check(np.array_equal(i0, np.arange(n)), "geometry:default-layout:index", f"{label}: returned index is not the identity")
+                except Exception as e:
+                    res.exception("geometry:default-layout:exception", e, label)
             if len(geos) == 2:
                 a, b = geos["shank"], geos["geom"]
                 same = all(np.array_equal(a[k], b[k]) for k in a if k != "flag")
